@@ -191,6 +191,7 @@ func fixedHarmless() []mutant {
 		{Harmless: true, ID: "h-r6-C07-fixed", Patch: "refactors/r6-C07-fixed.diff"},
 		{Harmless: true, ID: "h-r6-C08-fixed", Patch: "refactors/r6-C08-fixed.diff"},
 		{Harmless: true, ID: "h-r6-C09-fixed", Patch: "refactors/r6-C09-fixed.diff"},
+		{Harmless: true, ID: "h-r6-C10-fixed", Patch: "refactors/r6-C10-fixed.diff"},
 		{Harmless: true, ID: "h-r6-C11-fixed", Patch: "refactors/r6-C11-fixed.diff"},
 		{Harmless: true, ID: "h-r6-C13-fixed", Patch: "refactors/r6-C13-fixed.diff"},
 		{Harmless: true, ID: "h-r6-C17-fixed", Patch: "refactors/r6-C17-fixed.diff"},
